@@ -176,6 +176,9 @@ func zero(t types.Type) Value {
 	panic("zero: " + t.String())
 }
 
+// Chan: an unbounded FIFO (sequential goroutine model, see *ssa.Go in interp.go).
+type Chan struct{ buf []Value }
+
 func copyVal(v Value) Value {
 	switch v := v.(type) {
 	case Struct:
